@@ -2,305 +2,289 @@ import MxModel.Kernels.DocQuote
 /-! Helper lemmas for `Props/C04.lean` about `Kernels/DocQuote.lean`. -/
 namespace MxModel.DocQuote
 
-abbrev qqq : List Ch := [.q, .q, .q]
+/-! ### the escape table -/
+
+/-- `_DOCSTR_ESCAPES` as a list of pairs -/
+def escapeTable : List (Char × List Char) :=
+  [('\\', ['\\', '\\']),
+   (Char.ofNat 0, ['\\', 'x', '0', '0']),
+   ('\r', ['\\', 'r']),
+   (Char.ofNat 0x0b, ['\\', 'x', '0', 'b']),
+   (Char.ofNat 0x0c, ['\\', 'x', '0', 'c']),
+   (Char.ofNat 0x1c, ['\\', 'x', '1', 'c']),
+   (Char.ofNat 0x1d, ['\\', 'x', '1', 'd']),
+   (Char.ofNat 0x1e, ['\\', 'x', '1', 'e']),
+   (Char.ofNat 0x85, ['\\', 'x', '8', '5']),
+   (Char.ofNat 0x2028, ['\\', 'u', '2', '0', '2', '8']),
+   (Char.ofNat 0x2029, ['\\', 'u', '2', '0', '2', '9'])]
+
+theorem escapeOf_some {c : Char} {e : List Char} (h : escapeOf c = some e) : (c, e) ∈ escapeTable := by
+  unfold escapeOf at h
+  repeat' split at h
+  all_goals first
+    | (cases h; subst_vars; decide)
+    | cases h
+
+theorem escapeOf_none {c : Char} (h : escapeOf c = none) : c ≠ '\\' ∧ c ∉ sourceUnsafe := by
+  unfold escapeOf at h
+  repeat' split at h
+  all_goals first
+    | (simp only [sourceUnsafe, List.mem_cons, List.not_mem_nil, or_false, not_or]; simp_all; done)
+    | cases h
+
+/-- every entry is in the table under its own key (the table is the function) -/
+theorem escapeOf_table : ∀ p ∈ escapeTable, escapeOf p.1 = some p.2 := by decide
 
 /-! ### newline normalisation -/
 
-theorem universalNl_noCr (t : List Ch) : Ch.cr ∉ universalNl t := by
-  fun_induction universalNl t <;> simp_all
-  rename_i h _; exact fun e => h e.symm
+theorem nlAux_append_noCr (a t : List Char) (h : '\r' ∉ a) :
+    nlAux false (a ++ t) = a ++ nlAux false t := by
+  induction a with
+  | nil => rfl
+  | cons c r ih =>
+    simp only [List.mem_cons, not_or] at h
+    have hc : c ≠ '\r' := fun e => h.1 e.symm
+    simp [nlAux, hc, ih h.2]
 
-theorem universalNl_id (t : List Ch) (h : Ch.cr ∉ t) : universalNl t = t := by
-  fun_induction universalNl t <;> simp_all
+theorem universalNl_noCr (a : List Char) (h : '\r' ∉ a) : universalNl a = a := by
+  have := nlAux_append_noCr a [] h
+  simpa [universalNl, nlAux] using this
 
-theorem universalNl_q (t : List Ch) : universalNl (.q :: t) = .q :: universalNl t := by
+/-! ### the tokenizer -/
+
+theorem scanTok_quote (run : Nat) (rest : List Char) :
+    scanTok run ('"' :: rest) =
+      if run + 1 = 3 then some (['"'], rest)
+      else (scanTok (run + 1) rest).map (fun p => ('"' :: p.1, p.2)) := by
+  rw [scanTok.eq_def]; simp
+
+theorem scanTok_bs (run : Nat) (e : Char) (rest : List Char) :
+    scanTok run ('\\' :: e :: rest) = (scanTok 0 rest).map (fun p => ('\\' :: e :: p.1, p.2)) := by
+  rw [scanTok.eq_def]; simp
+
+theorem scanTok_other (run : Nat) (c : Char) (rest : List Char) (hc : c ≠ '"') (hb : c ≠ '\\') :
+    scanTok run (c :: rest) = (scanTok 0 rest).map (fun p => (c :: p.1, p.2)) := by
+  rw [scanTok.eq_def]; simp [hc, hb]
+
+/-- the tokenizer never looks beyond the closing quotes: what follows a token stays -/
+theorem scanTok_append (q : Nat) (p : List Char) : ∀ (t r s : List Char),
+    scanTok q p = some (t, r) → scanTok q (p ++ s) = some (t, r ++ s) := by
+  fun_induction scanTok q p with
+  | case1 => intro t r s h; simp at h
+  | case2 run rest hr =>
+    intro t r s h
+    simp only [Option.some.injEq, Prod.mk.injEq] at h
+    obtain ⟨rfl, rfl⟩ := h
+    simp [scanTok_quote, hr]
+  | case3 run rest hr ih =>
+    intro t r s h
+    simp only [Option.map_eq_some_iff] at h
+    obtain ⟨⟨t', r'⟩, hs, he⟩ := h
+    simp only [Prod.mk.injEq] at he
+    obtain ⟨rfl, rfl⟩ := he
+    simp [scanTok_quote, hr, ih _ _ s hs]
+  | case4 run hq =>
+    intro t r s h; simp at h
+  | case5 run e rest' hq ih =>
+    intro t r s h
+    simp only [Option.map_eq_some_iff] at h
+    obtain ⟨⟨t', r'⟩, hs, he⟩ := h
+    simp only [Prod.mk.injEq] at he
+    obtain ⟨rfl, rfl⟩ := he
+    simp [scanTok_bs, ih _ _ s hs]
+  | case6 run c rest hc hb ih =>
+    intro t r s h
+    simp only [Option.map_eq_some_iff] at h
+    obtain ⟨⟨t', r'⟩, hs, he⟩ := h
+    simp only [Prod.mk.injEq] at he
+    obtain ⟨rfl, rfl⟩ := he
+    rw [List.cons_append, scanTok_other _ _ _ hc hb, ih _ _ s hs]; rfl
+
+/-- the tokenizer passes over one escape of the table and its run counter is 0 afterwards -/
+theorem scanTok_escape {c : Char} {e : List Char} (h : (c, e) ∈ escapeTable) (q : Nat) (x : List Char) :
+    scanTok q (e ++ x) = (scanTok 0 x).map (fun r => (e ++ r.1, r.2)) := by
+  simp only [escapeTable, List.mem_cons, List.not_mem_nil, or_false, Prod.mk.injEq] at h
+  rcases h with ⟨_, rfl⟩ | ⟨_, rfl⟩ | ⟨_, rfl⟩ | ⟨_, rfl⟩ | ⟨_, rfl⟩ | ⟨_, rfl⟩ | ⟨_, rfl⟩ | ⟨_, rfl⟩ |
+    ⟨_, rfl⟩ | ⟨_, rfl⟩ | ⟨_, rfl⟩ <;>
+  simp [scanTok_bs, scanTok_other, Option.map_map, Function.comp_def]
+
+theorem scanTok_qqq (tail : List Char) : scanTok 0 (qqq ++ tail) = some (qqq, tail) := by
+  simp [qqq, scanTok_quote]
+
+/-! ### the writer, one character at a time -/
+
+theorem quoteBody_quote_esc (q : Nat) (rest : List Char) (h : q + 1 = 3 ∨ rest = []) :
+    quoteBody q ('"' :: rest) = '\\' :: '"' :: quoteBody 0 rest := by
+  rw [quoteBody]; rw [if_pos rfl, if_pos h]
+
+theorem quoteBody_quote_keep (q : Nat) (rest : List Char) (h : ¬ (q + 1 = 3 ∨ rest = [])) :
+    quoteBody q ('"' :: rest) = '"' :: quoteBody (q + 1) rest := by
+  rw [quoteBody]; rw [if_pos rfl, if_neg h]
+
+theorem quoteBody_esc (q : Nat) (c : Char) (rest e : List Char) (hc : c ≠ '"') (he : escapeOf c = some e) :
+    quoteBody q (c :: rest) = e ++ quoteBody 0 rest := by
+  rw [quoteBody]; rw [if_neg hc, he]
+
+theorem quoteBody_plain (q : Nat) (c : Char) (rest : List Char) (hc : c ≠ '"') (he : escapeOf c = none) :
+    quoteBody q (c :: rest) = c :: quoteBody 0 rest := by
+  rw [quoteBody]; rw [if_neg hc, he]; rfl
+
+/-- **the tokenizer on the writer's output**: run counter of the tokenizer = counter of the
+writer; the closing quotes are reached with counter 0, so the token ends exactly there -/
+theorem scanTok_quoteBody (d : List Char) : ∀ (q : Nat) (tail : List Char), q ≤ 2 → (d = [] → q = 0) →
+    scanTok q (quoteBody q d ++ (qqq ++ tail)) = some (quoteBody q d ++ qqq, tail) := by
+  induction d with
+  | nil =>
+    intro q tail _ h0
+    rw [h0 rfl]
+    simpa [quoteBody] using scanTok_qqq tail
+  | cons c rest ih =>
+    intro q tail hq _
+    by_cases hc : c = '"'
+    · subst hc
+      by_cases hcond : q + 1 = 3 ∨ rest = []
+      · have ih0 := ih 0 tail (by omega) (fun _ => rfl)
+        rw [quoteBody_quote_esc _ _ hcond]
+        simp only [List.cons_append]
+        rw [scanTok_bs, ih0]; rfl
+      · have h3 : ¬ q + 1 = 3 := fun e => hcond (Or.inl e)
+        have hne : rest ≠ [] := fun e => hcond (Or.inr e)
+        have ih1 := ih (q + 1) tail (by omega) (fun e => absurd e hne)
+        rw [quoteBody_quote_keep _ _ hcond]
+        simp only [List.cons_append]
+        rw [scanTok_quote, if_neg h3, ih1]; rfl
+    · have ih0 := ih 0 tail (by omega) (fun _ => rfl)
+      cases he : escapeOf c with
+      | some e =>
+        rw [quoteBody_esc _ _ _ _ hc he, List.append_assoc,
+          scanTok_escape (escapeOf_some he), ih0]
+        simp
+      | none =>
+        have hb := (escapeOf_none he).1
+        rw [quoteBody_plain _ _ _ hc he]
+        simp only [List.cons_append]
+        rw [scanTok_other _ _ _ hc hb, ih0]; rfl
+
+/-! ### the escape decoder -/
+
+theorem dec_text_plain (c : Char) (r : List Char) (hb : c ≠ '\\') :
+    dec .text (c :: r) = (dec .text r).map (c :: ·) := by
+  rw [dec, if_neg hb]
+
+theorem dec_bs_quote (x : List Char) : dec .text ('\\' :: '"' :: x) = (dec .text x).map ('"' :: ·) := by
+  simp [dec, escKind]
+
+/-- every escape the writer uses is decoded to the character it was written for -/
+theorem dec_escape {c : Char} {e : List Char} (h : (c, e) ∈ escapeTable) (x : List Char) :
+    dec .text (e ++ x) = (dec .text x).map (c :: ·) := by
+  simp only [escapeTable, List.mem_cons, List.not_mem_nil, or_false, Prod.mk.injEq] at h
+  rcases h with ⟨rfl, rfl⟩ | ⟨rfl, rfl⟩ | ⟨rfl, rfl⟩ | ⟨rfl, rfl⟩ | ⟨rfl, rfl⟩ | ⟨rfl, rfl⟩ | ⟨rfl, rfl⟩ |
+    ⟨rfl, rfl⟩ | ⟨rfl, rfl⟩ | ⟨rfl, rfl⟩ | ⟨rfl, rfl⟩ <;>
+  simp [dec, escKind, hexVal, emit]
+
+/-- **the decoder on the writer's output** -/
+theorem dec_quoteBody (d : List Char) : ∀ q : Nat, dec .text (quoteBody q d) = some d := by
+  induction d with
+  | nil => intro q; simp [quoteBody, dec]
+  | cons c rest ih =>
+    intro q
+    by_cases hc : c = '"'
+    · subst hc
+      by_cases hcond : q + 1 = 3 ∨ rest = []
+      · rw [quoteBody_quote_esc _ _ hcond, dec_bs_quote, ih]; rfl
+      · rw [quoteBody_quote_keep _ _ hcond, dec_text_plain _ _ (by decide), ih]; rfl
+    · cases he : escapeOf c with
+      | some e => rw [quoteBody_esc _ _ _ _ hc he, dec_escape (escapeOf_some he), ih]; rfl
+      | none =>
+        rw [quoteBody_plain _ _ _ hc he, dec_text_plain _ _ (escapeOf_none he).1, ih]; rfl
+
+/-! ### what the written literal is made of -/
+
+theorem escape_sourceSafe : ∀ p ∈ escapeTable, ∀ x ∈ p.2, x ∉ sourceUnsafe := by decide
+
+theorem quoteBody_sourceSafe (d : List Char) : ∀ (q : Nat) (x : Char), x ∈ quoteBody q d → x ∉ sourceUnsafe := by
+  induction d with
+  | nil => intro q x h; simp [quoteBody] at h
+  | cons c rest ih =>
+    intro q x h
+    by_cases hc : c = '"'
+    · subst hc
+      by_cases hcond : q + 1 = 3 ∨ rest = []
+      · rw [quoteBody_quote_esc _ _ hcond] at h
+        simp only [List.mem_cons] at h
+        rcases h with rfl | rfl | h
+        · decide
+        · decide
+        · exact ih _ _ h
+      · rw [quoteBody_quote_keep _ _ hcond] at h
+        simp only [List.mem_cons] at h
+        rcases h with rfl | h
+        · decide
+        · exact ih _ _ h
+    · cases he : escapeOf c with
+      | some e =>
+        rw [quoteBody_esc _ _ _ _ hc he, List.mem_append] at h
+        rcases h with h | h
+        · exact escape_sourceSafe _ (escapeOf_some he) _ h
+        · exact ih _ _ h
+      | none =>
+        rw [quoteBody_plain _ _ _ hc he] at h
+        simp only [List.mem_cons] at h
+        rcases h with rfl | h
+        · exact (escapeOf_none he).2
+        · exact ih _ _ h
+
+theorem quoteDocstring_sourceSafe (d : List Char) (x : Char) (h : x ∈ quoteDocstring d) : x ∉ sourceUnsafe := by
+  simp only [quoteDocstring, List.mem_append] at h
+  rcases h with (h | h) | h
+  · simp only [qqq, List.mem_cons, List.not_mem_nil, or_false, or_self] at h; subst h; decide
+  · exact quoteBody_sourceSafe _ _ _ h
+  · simp only [qqq, List.mem_cons, List.not_mem_nil, or_false, or_self] at h; subst h; decide
+
+theorem quoteDocstring_noCr (d : List Char) : '\r' ∉ quoteDocstring d :=
+  fun h => quoteDocstring_sourceSafe d _ h (by decide)
+
+/-! ### from tokenizer and decoder to `lexLit` and `readLiteral` -/
+
+theorem lexLit_quoteDocstring (d tail : List Char) :
+    lexLit (quoteDocstring d ++ tail) = some (quoteBody 0 d, universalNl tail) := by
+  unfold lexLit
+  rw [universalNl, nlAux_append_noCr _ _ (quoteDocstring_noCr d)]
+  have h := scanTok_quoteBody d 0 (nlAux false tail) (by omega) (fun _ => rfl)
+  simp only [quoteDocstring, qqq, List.append_assoc, List.cons_append, List.nil_append] at h ⊢
+  rw [h]
   simp [universalNl]
 
-/-- normalisation never makes a text longer and changes it iff it contains a carriage return -/
-theorem universalNl_eq_self_iff (t : List Ch) : universalNl t = t ↔ Ch.cr ∉ t := by
-  constructor
-  · intro h; rw [← h]; exact universalNl_noCr t
-  · exact universalNl_id t
-
-/-! ### the scanner -/
-
-/-- the value is never longer than what was scanned, closing quotes not counted -/
-theorem scan_len (t : List Ch) : ∀ v r, scan t = some (v, r) → v.length + r.length + 3 ≤ t.length := by
-  fun_induction scan t with
-  | case1 => intro v r h; simp at h
-  | case2 => intro v r h; simp at h
-  | case3 c rest ih =>
-    intro v r h
-    simp only [Option.map_eq_some_iff] at h
-    obtain ⟨⟨v', r'⟩, hs, he⟩ := h
-    simp only [Prod.mk.injEq] at he
-    obtain ⟨rfl, rfl⟩ := he
-    have := ih v' r' hs
-    have hd : (decodeEsc c).length ≤ 2 := by cases c <;> simp [decodeEsc]
-    simp; omega
-  | case4 rest hq =>
-    intro v r h
-    simp only [Option.some.injEq, Prod.mk.injEq] at h
-    obtain ⟨rfl, rfl⟩ := h
-    match rest, hq with
-    | .q :: .q :: tl, _ => simp
-  | case5 rest hq ih =>
-    intro v r h
-    simp only [Option.map_eq_some_iff] at h
-    obtain ⟨⟨v', r'⟩, hs, he⟩ := h
-    simp only [Prod.mk.injEq] at he
-    obtain ⟨rfl, rfl⟩ := he
-    have := ih v' r' hs
-    simp; omega
-  | case6 rest ih | case7 rest ih | case8 rest ih | case9 c rest ih =>
-    intro v r h
-    simp only [Option.map_eq_some_iff] at h
-    obtain ⟨⟨v', r'⟩, hs, he⟩ := h
-    simp only [Prod.mk.injEq] at he
-    obtain ⟨rfl, rfl⟩ := he
-    have := ih v' r' hs
-    simp; omega
-
-/-- a scanned value has no carriage return unless the text had one -/
-theorem scan_noCr (t : List Ch) : Ch.cr ∉ t → ∀ v r, scan t = some (v, r) → Ch.cr ∉ v := by
-  fun_induction scan t with
-  | case1 => intro _ v r h; simp at h
-  | case2 => intro _ v r h; simp at h
-  | case3 c rest ih =>
-    intro hc v r h
-    simp only [Option.map_eq_some_iff] at h
-    obtain ⟨⟨v', r'⟩, hs, he⟩ := h
-    simp only [Prod.mk.injEq] at he
-    obtain ⟨rfl, rfl⟩ := he
-    simp only [List.mem_cons, not_or] at hc
-    have := ih hc.2.2 v' r' hs
-    have hd : Ch.cr ∉ decodeEsc c := by
-      cases c <;> simp [decodeEsc]
-      exact hc.2.1 rfl
-    simp [hd, this]
-  | case4 rest hq =>
-    intro _ v r h
-    simp only [Option.some.injEq, Prod.mk.injEq] at h
-    obtain ⟨rfl, rfl⟩ := h
-    simp
-  | case5 rest hq ih =>
-    intro hc v r h
-    simp only [Option.map_eq_some_iff] at h
-    obtain ⟨⟨v', r'⟩, hs, he⟩ := h
-    simp only [Prod.mk.injEq] at he
-    obtain ⟨rfl, rfl⟩ := he
-    simp only [List.mem_cons, not_or] at hc
-    have := ih hc.2 v' r' hs
-    simp [this]
-  | case6 rest ih | case8 rest ih | case9 c rest ih =>
-    intro hc v r h
-    simp only [Option.map_eq_some_iff] at h
-    obtain ⟨⟨v', r'⟩, hs, he⟩ := h
-    simp only [Prod.mk.injEq] at he
-    obtain ⟨rfl, rfl⟩ := he
-    simp only [List.mem_cons, not_or] at hc
-    have := ih hc.2 v' r' hs
-    simp [this]
-  | case7 rest ih =>
-    intro hc; simp at hc
-
-/-! ### the shape predicates, one character at a time -/
-
-theorem startsQQ_append (r s : List Ch) (h : startsQQ r = true) : startsQQ (r ++ s) = true := by
-  match r, h with
-  | .q :: .q :: tl, _ => simp [startsQQ]
-
-theorem hasTriple_q (r : List Ch) : hasTriple (.q :: r) = (startsQQ r || hasTriple r) := by
-  match r with
-  | [] => simp [hasTriple, startsQQ]
-  | [.q] => simp [hasTriple, startsQQ]
-  | .q :: .q :: tl => simp [hasTriple, startsQQ]
-  | .q :: .bs :: tl | .q :: .nl :: tl | .q :: .cr :: tl | .q :: .en :: tl | .q :: .plain _ :: tl =>
-    simp [hasTriple, startsQQ]
-  | .bs :: tl | .nl :: tl | .cr :: tl | .en :: tl | .plain _ :: tl => simp [hasTriple, startsQQ]
-
-theorem hasTriple_other (c : Ch) (r : List Ch) (h : c ≠ .q) : hasTriple (c :: r) = hasTriple r := by
-  cases c <;> simp_all [hasTriple]
-
-theorem endsWithQ_cons (c : Ch) (r : List Ch) (h : r ≠ []) : endsWithQ (c :: r) = endsWithQ r := by
-  cases r with
-  | nil => exact absurd rfl h
-  | cons x xs => simp [endsWithQ, List.getLast?_cons_cons]
-
-theorem endsWithQ_single (c : Ch) : endsWithQ [c] = (c == .q) := by
-  simp [endsWithQ]
-
-theorem endsWithQ_cons2 (c d : Ch) (r : List Ch) (hd : d ≠ .q) :
-    endsWithQ (c :: d :: r) = endsWithQ r := by
-  cases r with
-  | nil => simp [endsWithQ, hd]
-  | cons x xs => rw [endsWithQ_cons _ _ (by simp), endsWithQ_cons _ _ (by simp)]
-
-
-/-! ### the two directions of the round trip, on the scanner -/
-
-/-- the three shape conditions of `SafeDoc` (the carriage-return condition is separate) -/
-def Safe3 (doc : List Ch) : Prop := hasTriple doc = false ∧ endsWithQ doc = false ∧ bsOk doc = true
-
-theorem scan_map_eq {t : List Ch} {f : List Ch → List Ch} {v r : List Ch}
-    (h : (scan t).map (fun p => (f p.1, p.2)) = some (v, r)) :
-    ∃ v', scan t = some (v', r) ∧ f v' = v := by
-  simp only [Option.map_eq_some_iff] at h
-  obtain ⟨⟨v', r'⟩, hs, he⟩ := h
-  simp only [Prod.mk.injEq] at he
-  exact ⟨v', by rw [hs, he.2], he.1⟩
-
-/-- if the scanner returns exactly the document, the document is safe -/
-theorem scan_safe : ∀ doc : List Ch, Ch.cr ∉ doc → scan (doc ++ qqq) = some (doc, []) → Safe3 doc
-  | [], _, _ => by simp [Safe3, hasTriple, endsWithQ, bsOk]
-  | [.bs], _, h => by simp [scan, startsQQ] at h
-  | .bs :: c :: r, hcr, h => by
-    simp only [List.mem_cons, not_or] at hcr
-    have h' : (scan (r ++ qqq)).map (fun p => (decodeEsc c ++ p.1, p.2)) = some (.bs :: c :: r, []) := by
-      simpa [scan] using h
-    obtain ⟨v', hs, hv⟩ := scan_map_eq h'
-    have hl := scan_len _ _ _ hs
-    simp only [List.length_append, List.length_nil, List.length_cons] at hl
-    cases c with
-    | q => simp [decodeEsc] at hv
-    | bs => simp [decodeEsc] at hv; subst hv; simp at hl; omega
-    | nl => simp [decodeEsc] at hv; subst hv; simp at hl; omega
-    | en => simp [decodeEsc] at hv
-    | cr => exact absurd rfl hcr.2.1
-    | plain ch =>
-      simp [decodeEsc] at hv; replace hv := hv.symm; subst hv
-      obtain ⟨h1, h2, h3⟩ := scan_safe r hcr.2.2 hs
-      refine ⟨?_, ?_, ?_⟩
-      · rw [hasTriple_other _ _ (by simp), hasTriple_other _ _ (by simp)]; exact h1
-      · cases r with
-        | nil => simp [endsWithQ]
-        | cons x xs => rw [endsWithQ_cons _ _ (by simp), endsWithQ_cons _ _ (by simp)]; exact h2
-      · simpa [bsOk] using h3
-  | .q :: r, hcr, h => by
-    simp only [List.mem_cons, not_or] at hcr
-    have hsq : startsQQ (r ++ qqq) = false := by
-      cases hq : startsQQ (r ++ qqq) with
-      | false => rfl
-      | true => simp [scan, hq] at h
-    have h' : (scan (r ++ qqq)).map (fun p => (Ch.q :: p.1, p.2)) = some (.q :: r, []) := by
-      simpa [scan, hsq] using h
-    obtain ⟨v', hs, hv⟩ := scan_map_eq h'
-    simp at hv; replace hv := hv.symm; subst hv
-    obtain ⟨h1, h2, h3⟩ := scan_safe r hcr.2 hs
-    refine ⟨?_, ?_, ?_⟩
-    · rw [hasTriple_q, h1]
-      cases hq : startsQQ r with
-      | false => rfl
-      | true => rw [startsQQ_append _ _ hq] at hsq; cases hsq
-    · cases r with
-      | nil => simp [startsQQ] at hsq
-      | cons x xs => rw [endsWithQ_cons _ _ (by simp)]; exact h2
-    · simpa [bsOk] using h3
-  | .nl :: r, hcr, h => by
-    simp only [List.mem_cons, not_or] at hcr
-    have h' : (scan (r ++ qqq)).map (fun p => (Ch.nl :: p.1, p.2)) = some (.nl :: r, []) := by
-      simpa [scan] using h
-    obtain ⟨v', hs, hv⟩ := scan_map_eq h'
-    simp at hv; replace hv := hv.symm; subst hv
-    obtain ⟨h1, h2, h3⟩ := scan_safe r hcr.2 hs
-    refine ⟨by rw [hasTriple_other _ _ (by simp)]; exact h1, ?_, by simpa [bsOk] using h3⟩
-    cases r with
-    | nil => simp [endsWithQ]
-    | cons x xs => rw [endsWithQ_cons _ _ (by simp)]; exact h2
-  | .en :: r, hcr, h => by
-    simp only [List.mem_cons, not_or] at hcr
-    have h' : (scan (r ++ qqq)).map (fun p => (Ch.en :: p.1, p.2)) = some (.en :: r, []) := by
-      simpa [scan] using h
-    obtain ⟨v', hs, hv⟩ := scan_map_eq h'
-    simp at hv; replace hv := hv.symm; subst hv
-    obtain ⟨h1, h2, h3⟩ := scan_safe r hcr.2 hs
-    refine ⟨by rw [hasTriple_other _ _ (by simp)]; exact h1, ?_, by simpa [bsOk] using h3⟩
-    cases r with
-    | nil => simp [endsWithQ]
-    | cons x xs => rw [endsWithQ_cons _ _ (by simp)]; exact h2
-  | .plain ch :: r, hcr, h => by
-    simp only [List.mem_cons, not_or] at hcr
-    have h' : (scan (r ++ qqq)).map (fun p => (Ch.plain ch :: p.1, p.2)) = some (.plain ch :: r, []) := by
-      simpa [scan] using h
-    obtain ⟨v', hs, hv⟩ := scan_map_eq h'
-    simp at hv; replace hv := hv.symm; subst hv
-    obtain ⟨h1, h2, h3⟩ := scan_safe r hcr.2 hs
-    refine ⟨by rw [hasTriple_other _ _ (by simp)]; exact h1, ?_, by simpa [bsOk] using h3⟩
-    cases r with
-    | nil => simp [endsWithQ]
-    | cons x xs => rw [endsWithQ_cons _ _ (by simp)]; exact h2
-  | .cr :: r, hcr, _ => by simp at hcr
-
-/-- a safe document is scanned back unchanged and the closing quotes end the text -/
-theorem scan_of_safe : ∀ doc : List Ch, Safe3 doc → scan (doc ++ qqq) = some (doc, [])
-  | [], _ => by simp [scan, startsQQ]
-  | [.bs], h => by simp [Safe3, bsOk] at h
-  | .bs :: c :: r, ⟨h1, h2, h3⟩ => by
-    cases c with
-    | q | bs | nl | en | cr => simp [bsOk] at h3
-    | plain ch =>
-      have ih := scan_of_safe r ⟨by
-          rw [hasTriple_other _ _ (by simp), hasTriple_other _ _ (by simp)] at h1; exact h1, by
-          cases r with
-          | nil => simp [endsWithQ]
-          | cons x xs =>
-            rw [endsWithQ_cons _ _ (by simp), endsWithQ_cons _ _ (by simp)] at h2; exact h2, by
-          simpa [bsOk] using h3⟩
-      simp [scan, ih, decodeEsc]
-  | .q :: r, ⟨h1, h2, h3⟩ => by
-    rw [hasTriple_q] at h1
-    simp only [Bool.or_eq_false_iff] at h1
-    have hne : r ≠ [] := by
-      intro e; subst e; simp [endsWithQ] at h2
-    have h2' : endsWithQ r = false := by rw [endsWithQ_cons _ _ hne] at h2; exact h2
-    have ih := scan_of_safe r ⟨h1.2, h2', by simpa [bsOk] using h3⟩
-    have hsq : startsQQ (r ++ qqq) = false := by
-      match r, hne, h1.1, h2' with
-      | [x], _, _, hx => cases x <;> simp_all [startsQQ, endsWithQ]
-      | x :: y :: tl, _, hs, _ =>
-        cases x <;> cases y <;> simp_all [startsQQ]
-    simp [scan, hsq, ih]
-  | .nl :: r, ⟨h1, h2, h3⟩ => by
-    have ih := scan_of_safe r ⟨by rw [hasTriple_other _ _ (by simp)] at h1; exact h1, by
-        cases r with
-        | nil => simp [endsWithQ]
-        | cons x xs => rw [endsWithQ_cons _ _ (by simp)] at h2; exact h2, by
-        simpa [bsOk] using h3⟩
-    simp [scan, ih]
-  | .en :: r, ⟨h1, h2, h3⟩ => by
-    have ih := scan_of_safe r ⟨by rw [hasTriple_other _ _ (by simp)] at h1; exact h1, by
-        cases r with
-        | nil => simp [endsWithQ]
-        | cons x xs => rw [endsWithQ_cons _ _ (by simp)] at h2; exact h2, by
-        simpa [bsOk] using h3⟩
-    simp [scan, ih]
-  | .cr :: r, ⟨h1, h2, h3⟩ => by
-    have ih := scan_of_safe r ⟨by rw [hasTriple_other _ _ (by simp)] at h1; exact h1, by
-        cases r with
-        | nil => simp [endsWithQ]
-        | cons x xs => rw [endsWithQ_cons _ _ (by simp)] at h2; exact h2, by
-        simpa [bsOk] using h3⟩
-    simp [scan, ih]
-  | .plain ch :: r, ⟨h1, h2, h3⟩ => by
-    have ih := scan_of_safe r ⟨by rw [hasTriple_other _ _ (by simp)] at h1; exact h1, by
-        cases r with
-        | nil => simp [endsWithQ]
-        | cons x xs => rw [endsWithQ_cons _ _ (by simp)] at h2; exact h2, by
-        simpa [bsOk] using h3⟩
-    simp [scan, ih]
-
-/-! ### from the scanner to `readLit ∘ writeDoc` -/
-
-theorem lexLit_writeDoc (doc : List Ch) : lexLit (writeDoc doc) = scan (universalNl (doc ++ qqq)) := by
-  simp [lexLit, writeDoc, universalNl_q]
-
-theorem readLit_eq_some (text v : List Ch) : readLit text = some v ↔ lexLit text = some (v, []) := by
-  unfold readLit
+theorem readLiteral_eq_some (text v : List Char) :
+    readLiteral text = some v ↔ ∃ body, lexLit text = some (body, []) ∧ dec .text body = some v := by
+  unfold readLiteral
   split
-  · rename_i v' h; rw [h]; simp
+  · rename_i body h; rw [h]; simp
   · rename_i h
     constructor
     · intro e; cases e
-    · intro e; exact absurd e (h v)
+    · rintro ⟨body, e, _⟩; exact absurd e (h body)
+
+/-! ### the line re-join of a def's source -/
+
+theorem otherBoundaries_unsafe : ∀ x ∈ otherBoundaries, x ∈ sourceUnsafe := by decide
+
+/-- a stretch of text without line boundaries other than the line feed, followed by more
+text, passes through `"\n".join(text.splitlines())` unchanged -/
+theorem splitJoin_append_safe (a b : List Char) (ha : ∀ x ∈ a, x ∉ sourceUnsafe) (hb : b ≠ []) :
+    splitJoin false (a ++ b) = a ++ splitJoin false b := by
+  induction a with
+  | nil => rfl
+  | cons c r ih =>
+    have hc : c ∉ sourceUnsafe := ha c (List.mem_cons_self)
+    have hr : ∀ x ∈ r, x ∉ sourceUnsafe := fun x hx => ha x (List.mem_cons_of_mem _ hx)
+    have hob : c ∉ otherBoundaries := fun h => hc (otherBoundaries_unsafe _ h)
+    have hcr : c ≠ '\r' := fun e => hc (by rw [e]; decide)
+    have hne : r ++ b ≠ [] := by simp [hb]
+    rw [List.cons_append, splitJoin]
+    by_cases hn : c = '\n'
+    · subst hn
+      simp [hne, ih hr]
+    · simp [hn, hob, ih hr]
 
 end MxModel.DocQuote
